@@ -336,6 +336,7 @@ class Case:
     def sets_file(self, pkg):
         used = set()
         body = []
+        plain = []
         groups = {}
         for s in self.P['sets']:
             if s['pkg'] != pkg:
@@ -343,6 +344,10 @@ class Case:
             items = [self.item_expr(it, pkg, used) for it in s['items']]
             init = 'wire.NewSet(%s)' % ', '.join(items)
             g = s.get('grp') or ''
+            if g == '=alias':
+                # a plain re-export of another package's set: no marker call, no wire import in this file
+                plain.append('var %s = %s\n' % (self.nm(s['name']), items[0]))
+                continue
             if g:
                 groups.setdefault(g, []).append((self.nm(s['name']), init))
             else:
@@ -351,6 +356,9 @@ class Case:
             body.append('var %s = %s\n' % (', '.join(n for n, _ in lst), ', '.join(i for _, i in lst)))
         for (hn, hty, hexpr) in self.hidden.get(pkg, []):
             body.append('var hidden%s %s = %s\n' % (hn, hty, hexpr))
+        if plain and not body:
+            return 'package %s\n\n%s%s' % (self.goname(pkg), self.imports(pkg, used), '\n'.join(plain))
+        body += plain
         if not body:
             return None
         return self.dotwire('package %s\n\n%s%s' % (self.goname(pkg), self.imports(pkg, used, ['"github.com/google/wire"']), '\n'.join(body)))
@@ -385,6 +393,8 @@ class Case:
                 params, r, res = self.inj_sig(inj, 'a', used)
                 items = [self.item_expr(it, 'a', used) for it in inj['items']]
                 body.append('func %s(%s) %s {\n\tpanic(wire.Build(%s))\n}\n' % (inj['name'], ', '.join(params), r, ', '.join(items)))
+            if (self.P.get('opts') or {}).get('filedecl'):
+                body.append('// helperCount%d is a non-injector declaration of this injector file.\nvar helperCount%d = %d\n' % (fno, fno, fno))
             name = 'wire.go' if fno == 1 else 'wire_%d.go' % fno
             out[name] = self.dotwire('//go:build wireinject\n// +build wireinject\n\npackage %s\n\n%s%s'
                                      % (self.pkgname, self.imports('a', used, ['"github.com/google/wire"']), '\n'.join(body)))
@@ -608,6 +618,15 @@ def front_files(rc):
             sig, body = 'func Inject() string', '\treturn wire.Build(F1)\n'
         elif form == 'injector-no-result':
             sig, body = 'func Inject()', '\twire.Build(F1)\n'
+        elif form in ('other-func-panics-method-call', 'other-func-panics-call-of-call', 'other-func-panics-index-call', 'other-func-no-body'):
+            # an ordinary function of the analysed package whose body starts with panic(<call>) of an unusual callee
+            arg = {'other-func-panics-method-call': 'errValue().Error()', 'other-func-panics-call-of-call': 'mkFn()()',
+                   'other-func-panics-index-call': 'arr[0]()', 'other-func-no-body': ''}[form]
+            if form == 'other-func-no-body':
+                pre = 'func externalImpl() int\n\n'
+            else:
+                pre = 'func errValue() error { return nil }\nfunc mkFn() func() string { return func() string { return "x" } }\n\nfunc helper() {\n\tpanic(%s)\n}\n\n' % arg
+            body = '\twire.Build(F1)\n' + ret
         elif form == 'injector-four-results':
             sig, body = 'func Inject() (T1, func(), error, int)', '\twire.Build(F1)\n\treturn T1{}, nil, nil, 0\n'
         else:
@@ -654,6 +673,21 @@ var ExpCh = func() chan int { c := make(chan int, 8); c <- 1; c <- 2; c <- 3; c 
 var ExpAny interface{} = 5
 var _ = math.Pi
 
+type Small interface{ A() int }
+type Big interface {
+	Small
+	B() int
+}
+type bigImpl struct{ n int }
+
+func (b bigImpl) A() int { return b.n }
+func (b bigImpl) B() int { return b.n + 1 }
+
+var HeldBig Big = bigImpl{3}
+var HeldSmall Small = bigImpl{4}
+
+func bigOf(v interface{}) Big { b, _ := v.(Big); return b }
+
 var SetV = wire.NewSet(%(item)s)
 
 func Home() %(ty)s { return %(expr)s }
@@ -669,7 +703,11 @@ def value_files(rc):
     if same:
         home = 'b'
     ty_inj = e['sort'].replace('@', 'b.' if home == 'b' else '')
-    if marker == 'InterfaceValue':
+    if marker == 'InterfaceValue:Big':
+        item = 'wire.InterfaceValue(new(Big), %s)' % expr
+        ty_home, ty_inj = 'Big', ('b.' if home == 'b' else '') + 'Big'
+        homeexpr = 'Big(bigOf(%s))' % expr
+    elif marker == 'InterfaceValue':
         item = 'wire.InterfaceValue(new(interface{}), %s)' % expr
         ty_home = ty_inj = 'interface{}'
         homeexpr = expr
